@@ -353,6 +353,8 @@ func TestVerifC19(t *testing.T) {
 			c19Wait(c19AllAnswered(hs2), 30*start+5*time.Second)
 			e.barrier()
 			c19CheckOnce(r, e, hs2, scenario, isTimeout, "a start-timeout error")
+			// the requests of the first wave were answered once, and the later events of the path did not answer them again
+			c19CheckOnce(r, e, hs, scenario, isTimeout, "a start-timeout error")
 			c19Alternation(r, e, "runOnDemand command started", "runOnDemand command stopped", scenario)
 			e.close()
 
